@@ -483,6 +483,23 @@ def check(repo):
                 alts = alternatives(t[2][0])
                 okn = ("param", "sid") in alts and all(a == ("param", "sid") or lookups(a) for a in alts)
         r6.require(okn, f, "%s re-creates the client from disk" % cmd, "commands.%s no longer creates Service(sid) from the stored state" % cmd)
+    # ---------------------------------------------------------------- R9.9 the links the round trip is composed of
+    r9 = Rule("R9.9", "the links of the round trip hold: wire formats of what travels, the server's and the client's state keeping")
+    rules.append(r9)
+    from . import c03, c10, c11
+    for mod, ids, what in ((c03, ("R3.1",), "token / result / index wire format"),
+                           (c10, ("R10.1", "R10.3"), "the server keeps and persists the accepted uploads"),
+                           (c11, ("R11.1", "R11.6", "R11.8"), "the client's step flags are kept, persisted and re-synchronised")):
+        for rr in mod.check(repo):
+            if rr.id not in ids:
+                continue
+            r9.obligations += rr.obligations
+            r9.discharged += rr.discharged
+            r9.instances.append({"imported": "%s (%s)" % (rr.id, what), "obligations": rr.obligations})
+            for f in rr.findings:
+                f.message = "a link of the end-to-end search is broken (%s, %s): %s" % (rr.id, what, f.message)
+                f.rule = "R9.9"
+                r9.findings.append(f)
     return rules
 
 
